@@ -1030,7 +1030,7 @@ def g_er(rng):
         # (round-4 miss C17-g) per-token attributes: the boundaries of any subset of the tokens of a reference - and of a
         # hypothesis - are unknown; only the token column counts.  Token names come from prefix families
         case["timing"] = {u: timing_only(g_timing(rng, v)) for u, v in case["ref"].items()}
-        case["htiming"] = {u: timing_only(g_timing(rng, v, rng.choice([None, "vec", "vec"]))) for u, v in case["hyp"].items()}
+        case["htiming"] = {u: timing_only(g_timing(rng, v, rng.choice([None, None, "vec"]))) for u, v in case["hyp"].items()}
         if mode != "int" and rng.random() < 0.8:
             case["toks"] = g_names(rng, len(toks))
     if mode == "int" and rng.random() < 0.5:
@@ -1951,6 +1951,7 @@ def x_tokdir(chk, sc, case):
             T = {n: sec(max(m, 0) + 2) for n, m in maxb.items()}
         if o["force"]:
             bargs += ["--force-method", o["force"]]
+        eps = 0.51e-3     # times are printed with 3 digits (--precision does not reach the writer: known finding C11 K5)
         meth = {n: (o["force"] if _tg_allows(t, o["force"]) else None) if o["force"]
                 else next(m for m in (1, 2, 3) if _tg_allows(t, m)) for n, t in files.items()}
         tg2, tg3 = os.path.join(root, "tg2"), os.path.join(root, "tg3")
@@ -1984,7 +1985,6 @@ def x_tokdir(chk, sc, case):
                         meta.append(f"TextGrid written for {n!r} cannot be read back ({exc_kind(e)})")
                         continue
                     nm = [id2[i] for i in tok_col(t)]
-                    eps = 1e-5
                     if meth[n] == 1:
                         ok = "IntervalTier" in a[pre + utt[n] + tgsuf] and len(tr) == len(nm) and all(
                             x[0] == w and abs(x[1] - sec(r[1])) < eps and abs(x[2] - sec(r[2])) < eps
@@ -2190,6 +2190,8 @@ def run(chk, cases=None):
         else:
             rec["what"] = "implementation output differs from PV.C17.Model (%s)" % ", ".join(labels)
         chk.report(rec, no_failing_input=bool(model_only and has_spec))
+    from props import c17_tie      # source tie: the translated workers interpreted in Coq on this run's tensors
+    c17_tie.source_tie(chk, cases, None)
 
 
 def replay(chk, path):
